@@ -35,6 +35,8 @@ def check(ctx, tier):
     threading(ctx, tk)
     memoised_geometry(ctx, tk)
     exported_width(ctx, tk)
+    coded_in_configured_width(ctx, tk)
+    no_narrowing_before_validation(ctx, tk)
     fs = [ctx.func(VB + n) for n in ("_index_rows", "set_dtype", "__init__")] + [ctx.func("raggedshape.RaggedShape.__init__"), ctx.func("raggedshape.build_indices")]
     hazards.h4_take_with_unknown_index(ctx, tk, "C19.a", fs)
     W.report(ctx, tk, "C19.d", fs)
@@ -259,3 +261,56 @@ def threading(ctx, tk):
         ctx.decide("C19.d", f, what, (not bare) if n_calls else None,
                    "`%s` converts a parameter without the configured index dtype: codes of another width are later reinterpreted with the configured one" % (bare[0] if bare else "",),
                    key="threaded", engine="E6")
+
+
+PROMOTING = {"cumsum", "sum", "cumprod", "prod", "accumulate", "reduce"}
+
+
+def coded_in_configured_width(ctx, tk):
+    """a code array handed to a constructor with is_coded=True is reinterpreted (`.view(_dtype)`) in the configured index
+    width.  KB: np.cumsum / np.sum / add.accumulate / add.reduce promote int32 to the platform integer (int64) unless a dtype is
+    given: codes built through them are 64-bit and are mis-read as pairs of 32-bit numbers under 32-bit indices"""
+    what = "codes passed with is_coded=True are in the configured index dtype (no silently promoting numpy reduction in their derivation)"
+    n_sites = 0
+    for q, f in sorted(ctx.program.funcs.items()):
+        if f.module.short != "raggedshape":
+            continue
+        fa = ctx.fa(f)
+        for n, c in find_calls(fa, lambda c: any(k_ == "is_coded" and is_const(v, True) for k_, v in c.a[2]) and c.a[1]):
+            n_sites += 1
+            codes = c.a[1][0]
+            promoting = []
+            for x in walk(codes):
+                if x.k == "call":
+                    nm = (attr_chain(x.a[0]) or ("",))[-1]
+                    if nm in PROMOTING and "dtype" not in dict(x.a[2]) and "out" not in dict(x.a[2]):
+                        promoting.append(x)
+            recast = any(x.k == "call" and x.a[0].k == "attr" and x.a[0].a[1] == "astype" and x.a[1] and (attr_chain(x.a[1][0]) or ("",))[-1] == "_dtype" for x in alts(codes)) or \
+                any(np_call(x, {"asarray", "asanyarray", "array"}) and (attr_chain(dict(x.a[2]).get("dtype")) or ("",))[-1] == "_dtype" for x in alts(codes) if x.k == "call" and dict(x.a[2]).get("dtype") is not None)
+            ctx.decide("C19.f", f, what, False if (promoting and not recast) else True,
+                       "`%s` is part of the codes: its result is int64 whatever the index width, so under 32-bit indices the coded array is reinterpreted as twice as many "
+                       "32-bit numbers (garbage starts and lengths)" % (promoting[0] if promoting else "",), node=c.node, key="coded:%s" % f.name, engine="KB")
+    if not n_sites:
+        ctx.unknown("C19.f", VB + "__init__", what, "no coded construction found", engine="KB")
+
+
+def no_narrowing_before_validation(ctx, tk):
+    """user-supplied (row, column) numbers are validated as given: converting them to the configured index dtype first
+    wraps an out-of-range 64-bit number into range under 32-bit indices (column 2**32+1 becomes column 1)"""
+    what = "caller-supplied indices are not converted to the index dtype before the bounds check"
+    for q in ("raggedarray.indexablearray.IndexableArray._get_element", "raggedarray.indexablearray.IndexableArray._get_row"):
+        f = ctx.program.funcs.get(q)
+        if f is None:
+            continue
+        fa = ctx.fa(f)
+        bad = []
+        for n, c in find_calls(fa, lambda c: (np_call(c, {"asarray", "asanyarray", "array"}) and dict(c.a[2]).get("dtype") is not None) or (c.a[0].k == "attr" and c.a[0].a[1] == "astype" and c.a[1])):
+            dt = dict(c.a[2]).get("dtype") if np_call(c, {"asarray", "asanyarray", "array"}) else c.a[1][0]
+            if (attr_chain(dt) or ("",))[-1] != "_dtype" and not any((attr_chain(y) or ("",))[-1] == "_dtype" for y in walk(dt)):
+                continue
+            src = c.a[1][0] if np_call(c, {"asarray", "asanyarray", "array"}) else c.a[0].a[0]
+            if any(y.k == "param" and y.a[0] in f.params[1:] for y in walk(src)) or any(y.k == "elem" for y in walk(src)):
+                bad.append(c)
+        ctx.decide("C19.f", f, what, False if bad else True,
+                   "`%s` narrows a caller-supplied index to the configured width before it is validated: under 32-bit indices an index 2**32 + k is accepted as k" % (bad[0] if bad else "",),
+                   node=bad[0].node if bad else None, key="narrowing:%s" % f.name, engine="KB")
